@@ -55,7 +55,11 @@ const userFunds = 1_000_000_000_000
 
 // newL1Env creates an L1 with 8 funded users and n bridges (period i from periods, default 10s).
 func newL1Env(n int, periods []time.Duration) *L1Env {
-	e := &L1Env{L1: sim.NewL1(sim.L1Opts{}), Bridges: map[uint64]*BridgeRoles{}, Denoms: defaultDenoms}
+	return newL1EnvAt(n, periods, time.Time{})
+}
+
+func newL1EnvAt(n int, periods []time.Duration, start time.Time) *L1Env {
+	e := &L1Env{L1: sim.NewL1(sim.L1Opts{StartTime: start}), Bridges: map[uint64]*BridgeRoles{}, Denoms: defaultDenoms}
 	for i := 0; i < 8; i++ {
 		u := sim.NewAccount(fmt.Sprintf("l1user%d", i))
 		e.Users = append(e.Users, u)
